@@ -54,18 +54,15 @@ namespace FeatureId
 `child_options.get(in_features)` is truthy and is a `frozenset`, **every** `Feature` element in iteration order
 overwrites `group[in_features]` with its name (last one wins); a single `Feature` value does the same. The value is
 found in group *or context* (`Options.get`), the write always goes to `group`. -/
+def rewriteGroup (k : String) : PyVal → PyDict → PyDict
+  | .frozenset l, g => l.foldl (fun g x => match x with | .feat n _ => g.set k (.str n) | _ => g) g
+  | .feat n _, g => g.set k (.str n)
+  | _, g => g
+
 def childRewrite (co : Options) : Options :=
   let k := Gen.OptionConsts.inFeaturesKey
   let v := co.get k
-  if truthy v then
-    let g1 := match v with
-      | .frozenset l => l.foldl (fun g x => match x with | .feat n _ => g.set k (.str n) | _ => g) co.group
-      | _ => co.group
-    let g2 := match v with
-      | .feat n _ => g1.set k (.str n)
-      | _ => g1
-    { co with group := g2 }
-  else co
+  if truthy v then { co with group := rewriteGroup k v co.group } else co
 
 def childEq : Option Options → Option Options → Bool
   | none, none => true
